@@ -299,15 +299,16 @@ def r11_7(ctx: Ctx, rule: str = "R11.7") -> None:
         asks = any(isinstance(cd, ast.Call) and attr_tail(cd) == "needs_password" and pol for cd, pol in facts) and \
             any((nt := q.is_none_test(cd)) is not None and "password" in norm(nt[0]) and nt[1] == pol for cd, pol in facts)
         rn = q.node_for(ex, r)
-        # nothing that touches the file system lies before it: the worker call and the directory pre-pass (mkdir of member directories);
-        # the destination directory itself and the pure bookkeeping of the member loop may precede it
-        dest_mk = [c for c in q.calls(ex) if attr_tail(c) == "mkdir" and not q.enclosing_loops(ex, c)]
+        # nothing that can be observed lies before it: the worker call, any directory creation (the destination included: a refused
+        # extraction must not leave a new directory tree behind), the start of the reporter and the first event for the callback
         before_all = all(not cfg.reaches(q.node_for(ex, w), rn) for w in wcalls) and all(
-            not cfg.reaches(q.node_for(ex, c), rn) for c in q.calls(ex) if attr_tail(c) in ("mkdir", "makedirs", "touch", "open") and c not in dest_mk)
+            not cfg.reaches(q.node_for(ex, c), rn) for c in q.calls(ex)
+            if attr_tail(c) in ("mkdir", "makedirs", "touch", "open", "unlink") or (attr_tail(c) == "start" and not c.args) or (attr_tail(c) == "put" and norm(c.func.value) == "self.q"))
         ok = ok or (asks and before_all)
     ctx.check(ok, rule, ex, ex.node, "_extract asks for the password before any output is touched",
               "extraction of an encrypted archive without a password raises PasswordRequired only when the first decoder is built - after the first member's file was opened "
-              "for writing: an empty file appears under the member's name and a correct copy that was already there is truncated", construct="password before output")
+              "for writing: an empty file appears under the member's name and a correct copy that was already there is truncated (or it is raised behind the creation of the "
+              "destination directory / the callback's 'preparation' event: the refused call leaves a new directory and a callback that waits for an extraction)", construct="password before output")
     es = ctx.prog.func("py7zr", "Worker._extract_single")
     ecfg = cfg_of(es.node)
     n = 0
@@ -321,10 +322,37 @@ def r11_7(ctx: Ctx, rule: str = "R11.7") -> None:
         n += 1
         removed = any(attr_tail(c) in ("unlink", "remove") and ecfg.reaches(q.node_for(es, c), rn) and not ecfg.reaches(rn, q.node_for(es, c))
                       and any(pol and isinstance(cd, ast.Compare) and "crc" in norm(cd).lower() for cd, pol in q.facts_at(es, c)) for c in q.calls(es))
+        # or: the raise stands in a try whose CrcError handler removes the file and re-raises
+        removed = removed or _crc_handler_unlinks(es, r)
         ctx.check(removed, rule, es, r, "wrong content is removed from disk before CrcError is raised",
                   "Worker._extract_single writes the member straight to its destination and raises CrcError afterwards, leaving the wrong bytes (wrong password with "
                   "Copy+7zAES / 7zAES alone, or damage) under the member's name", construct="wrong bytes left on disk")
     ctx.floor(rule, n, 1, "CrcError raises behind a disk write in _extract_single")
+    # the FOLDER's CRC is raised by Worker.decompress itself, at the end of the folder, i.e. from inside the `with <output>.open("wb")` block:
+    # every decode into a real output file stands in a try whose CrcError handler removes the file
+    wd = ctx.prog.func("py7zr", "Worker.decompress")
+    folder_level = any(isinstance(x, ast.Raise) and x.exc is not None and "CrcError" in norm(x.exc) for x in walk(wd.node))
+    if folder_level:
+        m = 0
+        for w in [w for w in walk(es.node) if isinstance(w, ast.With)]:
+            sinks = [it.optional_vars.id for it in w.items if isinstance(it.context_expr, ast.Call) and attr_tail(it.context_expr) == "open" and isinstance(it.optional_vars, ast.Name)
+                     and any(k.arg == "mode" and isinstance(k.value, ast.Constant) and "w" in str(k.value.value) for k in it.context_expr.keywords)]
+            for c in [c for st in w.body for c in ast.walk(st) if isinstance(c, ast.Call) and attr_tail(c) == "decompress" and len(c.args) > 2 and isinstance(c.args[2], ast.Name) and c.args[2].id in sinks]:
+                m += 1
+                ctx.check(_crc_handler_unlinks(es, c), rule, es, c, "a folder CRC mismatch raised while a member is written removes that member's file",
+                          "Worker.decompress raises the folder-level CrcError from inside `with fileish.open('wb')`, before the member-level comparison and its unlink: where the digest is "
+                          "the folder CRC (wrong password on Copy+7zAES, damage) the wrong bytes stay on disk under the member's name", construct="folder CrcError leaves the file")
+        ctx.floor(rule, m, 1, "decodes into a real output file in _extract_single")
+
+
+def _crc_handler_unlinks(es, node: ast.AST) -> bool:
+    for t in [t for t in walk(es.node) if isinstance(t, ast.Try) and any(node is x for st in t.body for x in ast.walk(st))]:
+        for h in t.handlers:
+            names = {x.id for x in ast.walk(h.type) if isinstance(x, ast.Name)} if h.type is not None else {"BaseException"}
+            if names & {"CrcError", "ArchiveError", "Exception", "BaseException"} and any(isinstance(x, ast.Call) and attr_tail(x) in ("unlink", "remove") for x in ast.walk(h)) \
+                    and h.body and isinstance(h.body[-1], ast.Raise):
+                return True
+    return False
 
 
 def run(ctx: Ctx) -> None:
